@@ -129,6 +129,7 @@ type nodeWorld struct {
 	extraOps map[string]func(it Item)
 
 	teeTracers func(mem EventTracer) EventTracer
+	ghost      func(topic string, data []byte) *pb.Message // message authored by an unconnected identity
 	onFakePub func(fp *fakePeer, m *pb.Message)
 	localHook func(topic string, data []byte, c *call)
 	localMids map[string]string // payload -> message id of local publications (seen by validators)
@@ -590,6 +591,16 @@ func (w *nodeWorld) exec1(it Item) {
 		}
 	case "fwd": // [idx, topic, size, author idx] valid message authored by another fake, forwarded by idx
 		fp, au := w.fake(int(it.a(0))), w.fake(int(it.a(3)))
+		if fp != nil && au == nil && w.ghost != nil && fp.outAlive() {
+			m := w.ghost(w.topicName(it.a(1)), w.mkData(int(it.a(2))))
+			w.sent[midOf(m)] = m
+			w.noteSentBy(fp, m)
+			if w.onFakePub != nil {
+				w.onFakePub(fp, m)
+			}
+			fp.send(rpcPub(m))
+			break
+		}
 		if fp != nil && au != nil && fp.outAlive() {
 			m := au.signedMsg(w.topicName(it.a(1)), w.mkData(int(it.a(2))))
 			w.sent[midOf(m)] = m
@@ -772,6 +783,18 @@ func (w *nodeWorld) exec1(it Item) {
 		}
 	}
 	s.settle()
+}
+
+// midFor: the message id as the node computes it (default id function unless a plan overrides it).
+func (w *nodeWorld) midFor(m *pb.Message) string { return DefaultMsgIdFn(m) }
+
+func (w *nodeWorld) fakeIndex(id peer.ID) (int, bool) {
+	for i, fp := range w.fakes {
+		if fp.id == id {
+			return i, true
+		}
+	}
+	return 0, false
 }
 
 func (w *nodeWorld) noteSentBy(fp *fakePeer, m *pb.Message) {
